@@ -16,6 +16,8 @@ import Sqfs.Proofs.TarFixIter
 import Sqfs.Proofs.TarFixConv
 import Sqfs.Proofs.TarSqfs2tar
 import Sqfs.Proofs.TarPaxNum
+import Sqfs.Proofs.TarPaxUrl
+import Sqfs.Proofs.TarPaxB64
 namespace Sqfs.C04
 open Sqfs.Tar
 
@@ -419,6 +421,35 @@ theorem pax_number_exact_or_error (ds rest : Bytes) (hne : ds ≠ []) (hd : ∀ 
       exact key (fun v => (v : Int))
   · rw [parseInt_neg, hu]
     exact key (fun v => -(v : Int))
+
+/--
+**LIBARCHIVE xattr names** (`urldecode`, `pax_xattr_libarchive`).  libarchive percent-encodes the bytes of an attribute name it
+must escape (`esc`; at least the '%' itself) as `%XX` and writes the others literally.  For every NUL-free name and every such
+choice of escaped bytes the reader's `urldecode` returns exactly the name — '=' (`%3D`), blanks, non-ASCII bytes, '%' included.
+-/
+theorem libarchive_key_roundtrip (esc : UInt8 → Bool) (h37 : esc 37 = true) (k : Bytes) (hk : ∀ x ∈ k, x ≠ 0) :
+    cstr (urlDecode (urlEncode esc k)) = k := by
+  rw [urlDecode_encode esc h37 k, cstr_clean k hk]
+
+/--
+**LIBARCHIVE xattr records** (`pax_xattr_libarchive`: `base64_decode` + `urldecode`).  `base64_decode` inverts RFC 4648 base64 — with
+the '=' padding and without it (libarchive omits it) — for every byte string, of any length; hence the handler of a
+`LIBARCHIVE.xattr.<percent-encoded name>=<base64 value>` record adds exactly the pair (name, value) to the member's attributes,
+for every NUL-free name and every binary value.  (The record parser in front of the handler is `pax_record_spec`; the alternative
+alphabet characters '-' / '_' and malformed input are exercised, not proved.)
+-/
+theorem libarchive_xattr_roundtrip (pc : PaxCfg) (out : Decoded) (esc : UInt8 → Bool) (h37 : esc 37 = true) (k v : Bytes)
+    (hk : ∀ x ∈ k, x ≠ 0) :
+    base64Decode (b64Encode v) = some v ∧ base64Decode (b64EncodeNoPad v) = some v ∧
+    applyHandler pc out .libarchive (ascii "LIBARCHIVE.xattr." ++ urlEncode esc k) (b64Encode v) =
+      some { out with xattr := if pc.keepOrder then out.xattr ++ [(k, v)] else (k, v) :: out.xattr } ∧
+    applyHandler pc out .libarchive (ascii "LIBARCHIVE.xattr." ++ urlEncode esc k) (b64EncodeNoPad v) =
+      some { out with xattr := if pc.keepOrder then out.xattr ++ [(k, v)] else (k, v) :: out.xattr } := by
+  have hd : (ascii "LIBARCHIVE.xattr." ++ urlEncode esc k).drop 17 = urlEncode esc k := List.drop_left' (by decide)
+  have hkey := libarchive_key_roundtrip esc h37 k hk
+  refine ⟨base64Decode_encode v, base64Decode_encodeNoPad v, ?_, ?_⟩
+  · simp only [applyHandler, base64Decode_encode, hd, hkey]
+  · simp only [applyHandler, base64Decode_encodeNoPad, hd, hkey]
 
 /--
 **The PAX 0.1 sparse map parser** (`pax_sparse_map`, the `GNU.sparse.map` record).  For every non-empty list of pairs of decimal
@@ -1034,6 +1065,12 @@ example : (paxRecord (ascii "path") (ascii "x/y")) = ascii "12 path=x/y\n" := by
 -- `pax_number_exact_or_error`: the largest accepted value, the smallest refused one, a fractional mtime, leading zeros
 example : parseUint (ascii "18446744073709551609") = some (18446744073709551609, 20) ∧ parseUint (ascii "18446744073709551610") = none ∧
     parseInt (ascii "1542905892.5") = some 1542905892 ∧ parseInt (ascii "-000000000000000000000000017,") = some (-17) := by decide
+-- `libarchive_xattr_roundtrip`: the encoders are base64 ("ABC" -> "QUJD", "AB" -> "QUI=" / "QUI")
+example : b64Encode (ascii "ABC") = ascii "QUJD" ∧ b64Encode (ascii "AB") = ascii "QUI=" ∧ b64EncodeNoPad (ascii "AB") = ascii "QUI" ∧
+    b64Encode [0xfb, 0xff] = ascii "+/8=" := by decide
+-- `libarchive_key_roundtrip`: '=' and '%' escaped, the rest literal
+example : urlEncode (fun c => c = 37 || c = 61) (ascii "user.a=b%") = ascii "user.a%3Db%25" ∧
+    urlDecode (ascii "user.a%3Db%25") = ascii "user.a=b%" := by decide
 -- `pax_sparse_map_spec`: the hypotheses hold for a real map, and `renderMap` is the record's syntax
 example : renderMap [(ascii "10", ascii "3"), (ascii "020", ascii "2")] = ascii "10,3,020,2" ∧ IsDec (ascii "020") ∧ decVal (ascii "020") = 20 := by
   refine ⟨by decide, ⟨by decide, by decide, by decide⟩, by decide⟩
